@@ -863,6 +863,9 @@ class Sim(object):
         self.transcripts = {}
         self.log = []
         self.model_mode = "gregorian"   # the sim's own bookkeeping
+        self.fills = []                 # values that went into memo tables
+        self.ctx = ["init"]
+        self.audit_results = []
         self.env_cal = None
         self.switch_count = 0
         self.sig = []
@@ -1188,6 +1191,8 @@ class Sim(object):
         world.set_env(world.ENV_CAL, None)
         world.set_env(world.ENV_REF, None)
         trace = self.trace
+        if self.solo is None:
+            world.record_cache_fills(self.fills, self.ctx)
         if self.solo is None and trace.get("cache_max") is not None:
             world.shrink_caches(trace["cache_max"])   # 0 = no memoisation
         # the process's one long-lived operator, built before anybody chose
@@ -1205,6 +1210,7 @@ class Sim(object):
         for step_no, step in enumerate(trace["steps"]):
             if step["k"] != "op":
                 if self.solo is None:
+                    self.ctx[0] = "perturb"
                     self.perturb(step, step_no)
                 continue
             cid = step["c"]
@@ -1218,7 +1224,9 @@ class Sim(object):
                         model.BASE[self.model_mode] != model.BASE[client.sp]
                         or step.get("force"))
                 if need:
+                    self.ctx[0] = "switch"
                     self.apply_switch(step["sw"], client.sp, step_no, client)
+            self.ctx[0] = "op"
             res = do_op(self, client, step["op"])
             self.transcripts[cid].append([step_no, res])
             self.count("ops")
@@ -1237,6 +1245,9 @@ class Sim(object):
                 last_client = cid
                 self.states.add("%s|%d" % (
                     self.model_mode, min(4, self.cache_bucket())))
+        for tail in trace.get("audit_tail", ()) if self.solo is None else ():
+            self.audit_results.append(audit_public_call(
+                tail["mode"], tail["fn"], tail["args"]))
         return self
 
     def cache_bucket(self):
@@ -1262,9 +1273,138 @@ def execute(trace, solo=None, alarm=None):
         if cm:
             stats["evicting_caches"] = sum(
                 1 for v in cs.values() if v[1] > cm and v[2] >= cm)
+    fills = []
+    if solo is None:
+        keyed = [f for f in sim.fills if f[4] is not None]
+        outside = [f for f in keyed if f[5] != "op"]
+        inside = [f for f in keyed if f[5] == "op"]
+        stride = max(1, len(inside) // 60)
+        fills = [(k, a, kw, canon(v), m, c) for k, a, kw, v, m, c in (
+            outside[:300] + inside[::stride][:60])]
+        stats["fills_total"] = len(keyed)
+        stats["fills_outside_ops"] = len(outside)
     return {"transcripts": sim.transcripts, "violations": sim.violations,
             "counters": sim.counters, "sig": sim.sig,
-            "states": sorted(sim.states), "stats": stats}
+            "states": sorted(sim.states), "stats": stats,
+            "fills": [list(f) for f in fills],
+            "audit_results": sim.audit_results}
+
+
+def audit_public_call(mode, fn_name, args):
+    """Select `mode` and ask the public function `fn_name` -- used at the
+    end of a history and in a fresh process alike."""
+    from metomi.isodatetime import data
+    try:
+        with kernel.guarded():
+            data.Calendar.default().set_mode(mode)
+            res = getattr(data, fn_name)(*args)
+            if fn_name == "iter_months_days":
+                res = list(res)
+            return canon(res)
+    except kernel.Hang:
+        return "HANG"
+    except Exception as exc:
+        return "EXC:%s:%s" % (type(exc).__name__, exc)
+
+
+def audit_fresh_fills(zone_minutes, mode, entries):
+    """In a fresh process that only ever uses `mode`: what each memoised
+    helper computes for the recorded arguments."""
+    kernel.import_library()
+    from metomi.isodatetime import data
+    world.fixed_utc_world(zone_minutes)
+    world.set_env(world.ENV_CAL, None)
+    caches = world.discover_caches()
+    out = []
+    try:
+        with kernel.guarded():
+            data.Calendar.default().set_mode(mode)
+    except Exception:
+        return None
+    for key, args, kwargs in entries:
+        try:
+            owner, attr = caches[key]
+            with kernel.guarded():
+                out.append(canon(getattr(owner, attr)(*args, **kwargs)))
+        except kernel.Hang:
+            out.append("HANG")
+        except Exception as exc:
+            out.append("EXC:%s" % type(exc).__name__)
+    return out
+
+
+def audit_fresh_public(zone_minutes, mode, fn_name, args):
+    kernel.import_library()
+    world.fixed_utc_world(zone_minutes)
+    world.set_env(world.ENV_CAL, None)
+    return audit_public_call(mode, fn_name, args)
+
+
+def public_call_for(key, args, mode_at):
+    """The public function (and its arguments) that reads the memo entry
+    `key`(args): helpers are `_name(args..., mode)` behind `name(args...)`."""
+    name = key.split(".", 1)[1]
+    if not name.startswith("_"):
+        return None
+    pub = name[1:]
+    rest = [a for i, a in enumerate(args) if i != mode_at]
+    if pub == "iter_months_days":
+        # (is_leap_year, month, day, in_reverse) -> a year of that kind
+        return pub, [2000 if rest[0] else 2001] + rest[1:]
+    return pub, rest
+
+
+def cache_audit(trace, inter, alarm, counters):
+    """Oracle 4: every value that went into a mode-keyed memo table equals
+    what a fresh process that only ever used that mode computes for the same
+    key; a mismatch is confirmed through the public function that reads the
+    entry (history replayed with that call appended vs a fresh process)
+    before it is reported."""
+    by_mode = {}
+    for key, args, kwargs, value, mode_at, ctx in inter.get("fills", ()):
+        if kwargs or mode_at is None or mode_at >= len(args):
+            continue
+        mode = args[mode_at]
+        if not isinstance(mode, str) or mode.lower() not in model.BASE:
+            continue
+        by_mode.setdefault(mode, []).append(
+            (key, tuple(args), value, mode_at, ctx))
+    zone = trace.get("zone_minutes", 0)
+    suspects = []
+    for mode in sorted(by_mode):
+        entries = by_mode[mode]
+        want = kernel.in_fresh_fork(audit_fresh_fills, (zone, mode, [
+            (k, a, {}) for k, a, _, _, _ in entries]), timeout=300)
+        if want is None:
+            continue
+        counters["cache_entries_audited"] = counters.get(
+            "cache_entries_audited", 0) + len(entries)
+        for (key, args, value, mode_at, ctx), w in zip(entries, want):
+            if value != w and "HANG" not in (value, w):
+                suspects.append((mode, key, args, value, w, mode_at, ctx))
+    out = []
+    for mode, key, args, value, w, mode_at, ctx in suspects[:3]:
+        counters["probe.cache_audit_suspects"] = counters.get(
+            "probe.cache_audit_suspects", 0) + 1
+        call = public_call_for(key, list(args), mode_at)
+        if call is None:
+            continue
+        fn_name, fn_args = call
+        replay = dict(trace, audit_tail=[
+            {"mode": mode, "fn": fn_name, "args": fn_args}])
+        again = kernel.in_fresh_fork(execute, (replay, None, alarm))
+        got = (again["audit_results"] or [None])[0]
+        fresh = kernel.in_fresh_fork(
+            audit_fresh_public, (zone, mode, fn_name, fn_args), timeout=300)
+        if got != fresh and "HANG" not in (got, fresh):
+            out.append({
+                "class": "cache_audit", "opkind": fn_name,
+                "step": len(trace["steps"]), "spelling": mode,
+                "call": [fn_name, fn_args], "got_after_history": got,
+                "want_fresh_process": fresh,
+                "memo_entry": [key, list(args), value],
+                "entry_computed_during": ctx})
+    return out
 
 
 HISTORY_OPS = ("rec_open", "rec_next", "hold", "held_add", "held_reprs")
@@ -1389,6 +1529,7 @@ def check_trace_full(trace, alarm=None):
                     **x_fields(op)))
                 break
         counters["single_op_fresh_process_checks"] = len(singles)
+    violations += cache_audit(trace, inter, alarm, counters)
     # probes measured over transcripts: same op issued under two calendars
     seen = {}
     for cid in used:
